@@ -15,7 +15,7 @@ LEVEL = "exploration"
 DESIGN_REF = "DESIGN.md §3 C03, §2.3"
 RULE = (
     "Histories over 2-5 vertices (0-2 of them universes that are also linkable vertices) of: edge constructors "
-    "(6 link classes, ends from pool+None), v1=/v2= (only on links that currently list two ends - model "
+    "(6 link classes, ends from pool+None), Link.add_vertex on two-ended links (a third listing, possibly of a vertex already listed), v1=/v2= (only on links that currently list at least two vertices - model "
     "precondition; skipped ops are counted), link_directed/link_undirected/link_from_to with dontdup on/off, "
     "unlink(a,b,destroy) incl. a is b, the four universe membership calls, bulk creation of 7-33 parallel links / 7-40 extra universe members at once (size thresholds), toggles of Vertex.NEIGHBOR_CACHING in between, Vertex(universes=[..with repeats]), "
     "Universe(vertices=[..with repeats]) and ill-typed edge constructor arguments (int/str/Link/object as an "
@@ -28,7 +28,8 @@ RULE = (
     "detaches a link from a vertex holding >= 2 links (order preservation exercised); distinct = distinct case value."
 )
 ASSUMPTIONS = [
-    "the four low-level association calls (Vertex.add_to_link/remove_from_link, Link.add_vertex/unlink_from) are not generated here: the documentation does not fix their exact effect on multiply-listed vertices (they are covered by C01/C05 with weaker oracles)",
+    "of the four low-level association calls only Link.add_vertex on a two-ended link is generated (the vertex is appended to the link's vertices: a link may then name a vertex several times, which is what 'detaches the previous vertex only if it is no longer an end' is about); Vertex.add_to_link/remove_from_link and Link.unlink_from are covered by C01/C05 with weaker oracles because the documentation does not fix their exact effect on multiply-listed vertices",
+    "operations on a vertex that holds a link listing a single vertex are skipped (TwoEndedLink.other is undefined there)",
     "under dontdup any joining link may be returned; removing a non-member may raise any exception type",
 ]
 LEVEL_TEXT = (
@@ -44,7 +45,7 @@ TECHNIQUE = "model-based stateful PBT (exhaustive small-scope + Hypothesis op-li
 
 OPS_W = (
     ["edge"] * 6 + ["v1"] * 4 + ["v2"] * 4 + ["link"] * 4 + ["unlink"] * 3
-    + ["ua", "ur", "va", "vr"] + ["newv_u", "newu", "newu2", "edge_bad"] + ["flag", "bulk", "bulk_u"]
+    + ["ua", "ur", "va", "vr"] + ["newv_u", "newu", "newu2", "edge_bad"] + ["flag", "bulk", "bulk_u"] + ["av"]
 )
 
 # coverage-guided extra engine (atheris): executions per fuzzer process, 16 processes
@@ -104,7 +105,7 @@ def compare(w, m, where):
     # v1 / v2 accessors agree with the ordered ends
     for k, l in enumerate(w.ls):
         e = m.ends[k]
-        if len(e) == 2:
+        if len(e) >= 2:
             require(l.v1 is w.v(e[0]) and l.v2 is w.v(e[1]), "v1v2-accessor", f"{where}: link {k} v1/v2 do not match its ends {e}")
 
 
@@ -132,9 +133,20 @@ def check_case(case):
             continue
         if name in ("bulk", "bulk_u"):
             classes.add("bulk:" + name)
-        if name in ("v1", "v2") and len(m.ends[r[1]]) != 2:
+        if name in ("v1", "v2") and len(m.ends[r[1]]) < 2:
             skipped += 1
             classes.add("skipped:end-assignment-on-link-without-two-ends")
+            continue
+        if name == "av":
+            # only on links that list exactly two vertices so far (the result lists three); what Link.add_vertex
+            # means for a link that has lost an end is not documented
+            if len(m.ends[r[1]]) != 2:
+                skipped += 1
+                continue
+            classes.add("third-vertex-listed-on-a-link")
+        if name in ("unlink", "link") and any(0 < len(m.ends[l]) < 2 for l in m.links_of[r[1] if name == "unlink" else r[2]]):
+            # a vertex holding a link that lists a single vertex: other() is undefined there (IndexError)
+            skipped += 1
             continue
         where = f"step {step} {list(r)}"
         # classification (on the model, before the call)
